@@ -39,7 +39,7 @@ func c28SplitRMW(c *core.Ctx) {
 		}
 		nOps := 0
 		for _, cm := range comps {
-			res := core.RunLockset(p, cm.spec)
+			res := c28RunLockset(p, cm.spec)
 			// per function: reads / wholesale assignments of each guarded field made in the function itself
 			type sum struct{ reads, assigns map[string]bool }
 			own := map[*core.FuncInfo]*sum{}
